@@ -868,6 +868,49 @@ theorem inv_writeStructO (cfg : Cfg) (v : Dict) (w : String → WRes Val) (ov : 
       { st := s } (by simpa using hnd) ⟨loose_of_inv cfg s [] h, by simp, fun _ => by simp⟩
     simpa using this
 
+theorem inv_readMemberAV (cfg : Cfg) (m : String) (r : RRes Dict) (iv : List (List AOp)) (k : Nat) (s : St) (h : Inv cfg s)
+    (hm : m ∈ cfg.members) : Inv cfg (readMemberAV cfg m r iv k s).1 := by
+  have h1 := inv_readStructC cfg r _ (inv_interrupt cfg (ivAt iv k) s h)
+  have h2 := inv_interrupt cfg (ivAt iv (k + 1)) _ h1
+  simp only [readMemberAV]
+  split
+  · exact inv_congr cfg (by simp) (by simp) h2
+  · split
+    · exact inv_congr cfg (by simp) (by simp) h2
+    · exact inv_congr cfg (fine_struct _) (fine_mem _) (inv_announceMember cfg m _ _ h2 hm)
+
+theorem inv_readMemberBV (cfg : Cfg) (m : String) (rB : RRes Val) (iv : List (List AOp)) (k : Nat) (s : St) (h : Inv cfg s)
+    (hm : m ∈ cfg.members) : Inv cfg (readMemberBV cfg m rB iv k s).1 := by
+  have h0 := inv_interrupt cfg (ivAt iv k) s h
+  simp only [readMemberBV]
+  cases rB with
+  | fail e => exact inv_congr cfg (by simp) (by simp) h0
+  | ok x => exact inv_congr cfg (fine_struct _) (fine_mem _) (inv_announceMember cfg m x _ h0 hm)
+
+theorem inv_writeMemberAO (cfg : Cfg) (m : String) (v : Val) (w : WRes Dict) (r : RRes Dict) (rB : RRes Val)
+    (iv : List (List AOp)) (s : St) (h : Inv cfg s) (hm : m ∈ cfg.members) : Inv cfg (writeMemberAO cfg m v w r rB iv s) := by
+  have ha := inv_interrupt cfg (ivAt iv 0) s h
+  have h1 := inv_writeStructC cfg ((interrupt cfg (ivAt iv 0) s).struct.set m v) w _ (inv_interrupt cfg (ivAt iv 1) _ ha)
+  have key : ∀ (sr : St × Option Val) (k : Nat), Inv cfg sr.1 →
+      Inv cfg (if !sr.1.ok then sr.1 else
+        match sr.2 with
+        | none => failed sr.1
+        | some x => fine (announceMember cfg m x (interrupt cfg (ivAt iv k) sr.1))) := by
+    intro sr k hsr
+    split
+    · exact hsr
+    · split
+      · exact inv_congr cfg (by simp) (by simp) hsr
+      · exact inv_congr cfg (fine_struct _) (fine_mem _) (inv_announceMember cfg m _ _ (inv_interrupt cfg _ _ hsr) hm)
+  simp only [writeMemberAO]
+  split
+  · exact h1
+  · by_cases hR : cfg.hasR m = true
+    · simp only [hR, ↓reduceIte]
+      exact key _ 3 (inv_readMemberBV cfg m rB iv 2 _ h1 hm)
+    · simp only [hR]
+      exact key _ 4 (inv_readMemberAV cfg m r iv 2 _ h1 hm)
+
 theorem inv_ostep (cfg : Cfg) (hnd : cfg.members.Nodup) (s : St) (op : OOp) (h : Inv cfg s) : Inv cfg (ostep1 cfg s op) := by
   have h' : Inv cfg { s with evs := [], exc := none } := h
   cases op with
@@ -882,6 +925,20 @@ theorem inv_ostep (cfg : Cfg) (hnd : cfg.members.Nodup) (s : St) (op : OOp) (h :
     split
     · exact inv_writeStructC cfg v wA _ (inv_interrupt cfg _ _ h')
     · exact inv_writeStructO cfg v wB ov _ h' hnd
+  | readMemberO m rA iv =>
+    simp only [ostep1, ostep]
+    split
+    · rename_i hc
+      simp only [Bool.and_eq_true, List.contains_iff_mem] at hc
+      exact inv_readMemberAV cfg m rA iv 0 _ h' hc.1.1
+    · exact h'
+  | writeMemberO m v wA rA rB iv =>
+    simp only [ostep1, ostep]
+    split
+    · rename_i hc
+      simp only [Bool.and_eq_true, List.contains_iff_mem] at hc
+      exact inv_writeMemberAO cfg m v wA rA rB iv _ h' hc.1.1
+    · exact h'
 
 theorem inv_oexec (cfg : Cfg) (hnd : cfg.members.Nodup) (ops : List OOp) : ∀ s, Inv cfg s → Inv cfg (oexec cfg s ops) := by
   induction ops with
